@@ -67,6 +67,25 @@ pub trait ScopedBitRead: BitRead {
     }
 }
 
+/// Appends `byte_len` bytes read from `read` to `buffer`, growing the buffer in chunks, so that a
+/// length announced by untrusted input cannot cause a huge allocation before the input runs out.
+fn read_bytes_chunked<R: BitRead + ?Sized>(
+    read: &mut R,
+    buffer: &mut Vec<u8>,
+    byte_len: usize,
+) -> Result<(), Error> {
+    const CHUNK: usize = 64 * 1024;
+    let mut remaining = byte_len;
+    while remaining > 0 {
+        let chunk = remaining.min(CHUNK);
+        let start = buffer.len();
+        buffer.resize(start + chunk, 0x00);
+        read.read_bits(&mut buffer[start..])?;
+        remaining -= chunk;
+    }
+    Ok(())
+}
+
 impl<T: BitRead> PackedRead for T {
     /// ITU-T X.691 | ISO/IEC 8825-2:2015, chapter 12
     #[inline]
@@ -280,9 +299,13 @@ impl<T: BitRead> PackedRead for T {
             )
         };
 
-        let byte_len = (bit_len + 7) / 8;
-        let mut buffer = vec![0u8; byte_len as usize];
-        self.read_bits_with_len(&mut buffer[..], bit_len as usize)?;
+        let mut buffer = Vec::new();
+        read_bytes_chunked(self, &mut buffer, (bit_len / 8) as usize)?;
+        if bit_len % 8 != 0 {
+            buffer.push(0x00);
+            let last = buffer.len() - 1;
+            self.read_bits_with_len(&mut buffer[last..], (bit_len % 8) as usize)?;
+        }
 
         // fragmentation?
         if fragmentation_possible && bit_len >= LENGTH_16K {
@@ -351,8 +374,8 @@ impl<T: BitRead> PackedRead for T {
             )
         };
 
-        let mut buffer = vec![0u8; byte_len as usize];
-        self.read_bits(&mut buffer[..])?;
+        let mut buffer = Vec::new();
+        read_bytes_chunked(self, &mut buffer, byte_len as usize)?;
 
         // fragmentation?
         if fragmentation_possible && byte_len >= LENGTH_16K {
